@@ -1,10 +1,154 @@
 /-
-Helper lemmas for C09, part 11: **the device-level tick equations hold for every completed tick
-of a (nested) configuration** — the operational core of the whole-run theorem.
+Helper lemmas for C09, part 20: **the device-level tick equations hold for every completed tick
+of a (nested) configuration** — the operational core of the whole-run theorem, assembled from
+the post-conditions of `tickLevel` about observations (`LevelPost`), values (`GenPost`) and
+schedulers (`SchedPost`).
 -/
-import TickitModel.Lemmas.FlattenEqs
+import TickitModel.Lemmas.FlattenGenLevel
+import TickitModel.Lemmas.FlattenGenSchedLevel
 
 namespace Tickit
+
+/-- assembling the tick equations for a tick of the master -/
+theorem tick_eqs_of {S : Static} (hS : S.Valid) {orc : Oracle} {n : Nat} (hst : S.ResolveStable n)
+    {σ₀ : SimSt} {t : SimTime} {Root : Comp → Prop} (ctx : TickCtx S σ₀ t Root)
+    (sctx : SchedCtx S σ₀ t Root) {fuel : Nat} {Lm : Level} (hLm : S.level "" = some Lm)
+    {roots : List Comp} {st : SimSt}
+    (hgen : GenPre S orc n σ₀ Root (fun _ => False) "" Lm roots [] st [])
+    (hsp : SchedPre S σ₀ Root "" Lm roots st [])
+    (hother : ∀ L, L ≠ "" → st.sched L = σ₀.sched L)
+    {σ' : SimSt} {out : List (Port × V)}
+    (ht : tickLevel S orc fuel "" t roots [] st = .ok (σ', out)) :
+    ∃ new, TickEqs S orc n σ₀ t Root σ' new ∧ SchedOK S σ' := by
+  obtain ⟨new, hobs, hnd, hown, _, _⟩ := tickLevel_post hS.toWF orc _ _ _ _ _ _ _ _ ht
+  obtain ⟨new', hobs', hdev, _⟩ := tickLevel_gen hS orc hst ctx fuel _ _ _ _ _ _ _ _ _ ht hLm hgen
+  have hnn : new' = new := List.append_cancel_left (hobs'.symm.trans hobs)
+  subst hnn
+  have hs := tickLevel_sched hS orc ctx sctx fuel "" Lm roots [] st σ' out [] new' ht hLm hobs hsp
+  have hfr := tickLevel_frame hS.toWF orc fuel "" t roots [] st σ' out ht
+  simp only [List.nil_append] at hdev hs
+  have hobs0 : st.obs = σ₀.obs := by simpa using hgen.obs_eq
+  have hLok : ∀ P, (P = "" ∨ S.isSys P = true) → LvlOK S orc σ₀ Root P σ' new' := by
+    rintro P (rfl | hsys)
+    · exact hs.lvl_ok
+    · exact (hs.below_ok P hsys (Static.below_master hS.toWF (hS.sys_parent P hsys))).1
+  have hdv : ∀ d, S.isDevice d → DevValOK S orc n σ₀ Root (fun a₀ => False ∨ S.Below "" a₀) new' σ' d :=
+    fun d hd => hdev d hd (Static.below_master hS.toWF hd.1)
+  have hpl : ∀ d P, alookup S.parent d = some P → P = "" ∨ S.isSys P = true := by
+    intro d P hP
+    obtain ⟨_, _, _, h⟩ := hS.parent_level d P hP
+    exact h
+  refine ⟨new', ?_, ?_⟩
+  · exact
+      { obs_eq := by rw [hobs, hobs0]
+        nodup := hnd
+        dev := fun o ho => ⟨(hown o ho).1, (hown o ho).2.1⟩
+        upd_iff := fun d hd => (hdv d hd).upd_iff
+        upd := by
+          intro o ho
+          have hd := (hown o ho).2.1
+          obtain ⟨ins, r, h1, h2, h3, h4, h5, h6, h7⟩ := (hdv o.comp hd).upd o ho rfl
+          refine ⟨ins, r, h1, h2, h3, h4, h5, h6, h7, ?_⟩
+          intro P hP
+          have hw := ((hLok P (hpl _ P hP)).dev o.comp hd hP).1 (List.mem_map.2 ⟨o, ho, rfl⟩) r h4
+          exact hw
+        frame := by
+          intro d hd hnm
+          obtain ⟨f1, f2⟩ := (hdv d hd).frame hnm
+          refine ⟨f1, f2, fun P hP => ?_⟩
+          have hnr : ¬ Root d := fun hr => hnm ((hdv d hd).upd_iff.2 (Or.inl hr))
+          exact (((hLok P (hpl _ P hP)).dev d hd hP).2 hnm).2 hnr }
+  · exact
+      { started := fun s hsys =>
+          (hs.below_ok s hsys (Static.below_master hS.toWF (hS.sys_parent s hsys))).2
+        wake_sys := fun s P hsys hP => (hLok P (hpl _ P hP)).sys s hsys hP
+        wake_keys := by
+          intro L c hk
+          by_cases hL : L = "" ∨ S.isSys L = true
+          · exact (hLok L hL).keys c hk
+          · have h1 : L ≠ "" := fun h => hL (Or.inl h)
+            have h2 : S.isSys L = false := by
+              cases h : S.isSys L with
+              | false => rfl
+              | true => exact absurd (Or.inr h) hL
+            rw [hfr.sched_dev L h1 h2, hother L h1] at hk
+            exact sctx.keys₀ L c hk
+        wake_unique := by
+          intro L
+          by_cases hL : L = "" ∨ S.isSys L = true
+          · exact (hLok L hL).unique
+          · have h1 : L ≠ "" := fun h => hL (Or.inl h)
+            have h2 : S.isSys L = false := by
+              cases h : S.isSys L with
+              | false => rfl
+              | true => exact absurd (Or.inr h) hL
+            rw [hfr.sched_dev L h1 h2, hother L h1]
+            exact sctx.unique₀ L }
+
+theorem SimSt.delWake_sched_ne (st : SimSt) (cs : List Comp) {L : Comp} (h : L ≠ "") :
+    (st.delWake cs).sched L = st.sched L := by
+  unfold SimSt.delWake
+  simp only []
+  rw [SimSt.sched_upsert, if_neg (Ne.symm h)]
+
+theorem SimSt.delWake_sched_master (st : SimSt) (cs : List Comp) :
+    ((st.delWake cs).sched "").wake = delWakeups (st.sched "").wake cs := by
+  unfold SimSt.delWake
+  simp only []
+  rw [SimSt.sched_upsert, if_pos rfl]
+
+/-- the completed initial tick satisfies the device-level tick equations with every device a root -/
+theorem tick_eqs_initial {S : Static} (hS : S.Valid) {orc : Oracle} {n : Nat} (hst : S.ResolveStable n)
+    {fuel : Nat} {t0 : SimTime} {L : Level} (hL : S.level "" = some L) {σ' : SimSt}
+    {out : List (Port × V)}
+    (ht : tickLevel S orc fuel "" t0 L.wiring.components [] {} = .ok (σ', out)) :
+    ∃ new, TickEqs S orc n {} t0 (fun _ => True) σ' new ∧ SchedOK S σ' := by
+  have hnone : ∀ p, S.resolve n "" pseudoExternal p = none := by
+    intro p
+    rw [← hst, Static.resolve_succ]
+    simp
+  have ctx : TickCtx S {} t0 (fun _ => True) :=
+    { root_up := fun _ _ _ _ _ => trivial
+      roots_sys := by
+        intro s Ls _ _ c hc _
+        refine ⟨fun _ => trivial, fun _ => ?_⟩
+        rw [mem_sunion]; right
+        rw [SimSt.sched_empty]
+        exact hc }
+  have sctx : SchedCtx S {} t0 (fun _ => True) :=
+    { due_root := fun _ _ _ _ => trivial
+      root_due := fun _ _ _ _ => Or.inr rfl
+      keys₀ := by intro L c h; simp [SimSt.sched, agetD] at h
+      unique₀ := by intro L; simp [SimSt.sched, agetD, UniqueKeys]
+      min₀ := fun _ _ _ _ => rfl
+      started₀ := fun _ _ h => absurd trivial h }
+  refine tick_eqs_of hS hst ctx sctx hL ?_ ?_ (fun _ _ => rfl) ht
+  · exact
+      { hroots := fun c hc _ => ⟨fun _ => trivial, fun _ => hc⟩
+        ext_root := fun h => absurd rfl h
+        obs_eq := rfl
+        fresh_obs := by simp
+        fresh_dev := fun _ _ => ⟨rfl, rfl⟩
+        fresh_sched := fun _ _ => rfl
+        in_nodup := by simp
+        in_ok := by
+          intro p v
+          constructor
+          · intro h; simp at h
+          · rintro ⟨a₀, p₀, hr, _⟩
+            rw [hnone p] at hr; cases hr
+        in_dec := by
+          intro p a₀ p₀ hr
+          rw [hnone p] at hr; cases hr
+        d0_out := fun _ h => h.elim }
+  · exact
+      { hroots := fun c hc _ => ⟨fun _ => trivial, fun _ => hc⟩
+        fresh_obs := by simp
+        fresh_count := fun _ _ => rfl
+        fresh_sched := fun _ _ => rfl
+        own_wake := fun _ => ⟨fun _ => rfl, fun h => absurd trivial h⟩
+        own_unique := by simp [SimSt.sched, agetD, UniqueKeys]
+        own_keys := by intro c h; simp [SimSt.sched, agetD] at h }
 
 /-- a completed callback tick of the master satisfies the device-level tick equations, with the
 devices whose own callback is due as roots, and leaves the schedulers' bookkeeping in order -/
@@ -13,14 +157,158 @@ theorem tick_eqs {S : Static} (hS : S.Valid) {orc : Oracle} {n : Nat} (hst : S.R
     (hfw : firstWakeups (σ₀.sched "").wake = (comps, some t)) {σ' : SimSt} {out : List (Port × V)}
     (ht : tickLevel S orc fuel "" t comps [] (σ₀.delWake comps) = .ok (σ', out)) :
     ∃ new, TickEqs S orc n σ₀ t (S.DueAt σ₀ t) σ' new ∧ SchedOK S σ' := by
-  sorry
-
-/-- the completed initial tick satisfies the device-level tick equations with every device a root -/
-theorem tick_eqs_initial {S : Static} (hS : S.Valid) {orc : Oracle} {n : Nat} (hst : S.ResolveStable n)
-    {fuel : Nat} {t0 : SimTime} {L : Level} (hL : S.level "" = some L) {σ' : SimSt}
-    {out : List (Port × V)}
-    (ht : tickLevel S orc fuel "" t0 L.wiring.components [] {} = .ok (σ', out)) :
-    ∃ new, TickEqs S orc n {} t0 (fun _ => True) σ' new ∧ SchedOK S σ' := by
-  sorry
+  obtain ⟨L, hL, _⟩ := tickLevel_ok_roots ht
+  obtain ⟨hL1, hL2⟩ := Static.level_some hL
+  have U := hsch.wake_unique
+  have K := hsch.wake_keys
+  obtain ⟨hcs, hmin, _, _⟩ := firstWakeups_spec _ (U "") comps t hfw
+  have hdue : ∀ s c, c ∈ nestedDue (σ₀.sched s).wake t ↔
+      ∃ t', alookup (σ₀.sched s).wake c = some t' ∧ t' ≤ t :=
+    fun s c => nestedDue_spec _ (U s) t c
+  have hnone : ∀ p, S.resolve n "" pseudoExternal p = none := by
+    intro p
+    rw [← hst, Static.resolve_succ]
+    simp
+  -- a due entry in scheduler `s` belongs to a component of `s`
+  have hdue_root : ∀ s c, c ∈ nestedDue (σ₀.sched s).wake t → S.DueAt σ₀ t c := by
+    intro s c h
+    obtain ⟨t', hl, hle⟩ := (hdue s c).1 h
+    exact ⟨s, t', K s c (mem_akeys_of_alookup_eq_some hl), hl, hle⟩
+  have ctx : TickCtx S σ₀ t (S.DueAt σ₀ t) :=
+    { root_up := by
+        rintro c P hP hPne ⟨P', w, hP', hw, hle⟩
+        rw [hP] at hP'; cases hP'
+        obtain ⟨_, _, _, hsys⟩ := hS.parent_level c P hP
+        have hsysP : S.isSys P = true := by
+          rcases hsys with h' | h'
+          · exact absurd h' hPne
+          · exact h'
+        obtain ⟨PP, hPP⟩ := Option.isSome_iff_exists.1 (hS.sys_parent P hsysP)
+        have hm := hsch.wake_sys P PP hsysP hPP
+        cases hfw' : (firstWakeups (σ₀.sched P).wake).2 with
+        | none =>
+          rw [firstWakeups_none] at hfw'
+          rw [hfw'] at hw
+          simp at hw
+        | some m =>
+          obtain ⟨_, hle'⟩ := system_callback_is_min _ (U P) m hfw'
+          rw [hfw'] at hm
+          exact ⟨PP, m, hPP, hm, Int.le_trans (hle' c w hw) hle⟩
+      roots_sys := by
+        intro s Ls hsys hLs c hc hne
+        obtain ⟨hfd, hint⟩ := hsch.started s hsys
+        obtain ⟨hLs1, hLs2⟩ := Static.level_some hLs
+        rw [hfd, hint]
+        simp only [if_true, mem_sunion, List.mem_singleton, hne, or_false, List.not_mem_nil, false_or]
+        constructor
+        · exact hdue_root s c
+        · rintro ⟨P, w, hP, hw, hle⟩
+          have hps : alookup S.parent c = some s := by
+            rcases hS.members Ls hLs1 c hc with h' | ⟨_, h' | h'⟩
+            · rw [hLs2] at h'; exact h'
+            · exact absurd h' hne
+            · rw [h', hS.pseudo_fresh.2.1] at hP; cases hP
+          rw [hps] at hP; cases hP
+          exact (hdue s c).2 ⟨w, hw, hle⟩ }
+  have sctx : SchedCtx S σ₀ t (S.DueAt σ₀ t) :=
+    { due_root := fun s c _ h => hdue_root s c h
+      root_due := by
+        rintro s c _ ⟨P, w, hP, hw, hle⟩
+        by_cases hPs : P = s
+        · subst hPs
+          exact Or.inl ((hdue P c).2 ⟨w, hw, hle⟩)
+        · right
+          cases hl : alookup (σ₀.sched s).wake c with
+          | none => rfl
+          | some x =>
+            have := K s c (mem_akeys_of_alookup_eq_some hl)
+            rw [hP] at this; cases this
+            exact absurd rfl hPs
+      keys₀ := K
+      unique₀ := U
+      min₀ := hsch.wake_sys
+      started₀ := fun s hs _ => hsch.started s hs }
+  -- the roots of the master are the components with a due entry
+  have hroots : ∀ c ∈ L.wiring.components, c ≠ pseudoExternal → (c ∈ comps ↔ S.DueAt σ₀ t c) := by
+    intro c hc _
+    constructor
+    · intro hm
+      have hl := (hcs c).1 hm
+      exact ⟨"", t, K "" c (mem_akeys_of_alookup_eq_some hl), hl, Int.le_refl _⟩
+    · rintro ⟨P, w, hP, hw, hle⟩
+      have hp0 : alookup S.parent c = some "" := by
+        rcases hS.members L hL1 c hc with h' | ⟨h', _⟩
+        · rw [hL2] at h'; exact h'
+        · exact absurd hL2 h'
+      rw [hp0] at hP; cases hP
+      have := hmin c w hw
+      have hwt : w = t := Int.le_antisymm hle this
+      rw [hwt] at hw
+      exact (hcs c).2 hw
+  have hbelow_ne : ∀ s, S.Below "" s → s ≠ "" := by
+    intro s hb
+    cases hb with
+    | direct h => exact hS.child_ne_master h
+    | step h _ _ => exact hS.child_ne_master h
+  have hown_wake : ∀ c, (S.DueAt σ₀ t c → alookup ((σ₀.delWake comps).sched "").wake c = none) ∧
+      (¬ S.DueAt σ₀ t c → alookup ((σ₀.delWake comps).sched "").wake c = alookup (σ₀.sched "").wake c) := by
+    intro c
+    rw [SimSt.delWake_sched_master, delWakeups_lookup _ (U "")]
+    constructor
+    · rintro ⟨P, w, hP, hw, hle⟩
+      by_cases hm : c ∈ comps
+      · simp [hm]
+      · simp only [hm, if_false]
+        cases hl : alookup (σ₀.sched "").wake c with
+        | none => rfl
+        | some x =>
+          exfalso
+          have := K "" c (mem_akeys_of_alookup_eq_some hl)
+          rw [hP] at this; cases this
+          rw [hw] at hl; cases hl
+          have hwt : w = t := Int.le_antisymm hle (hmin c w hw)
+          rw [hwt] at hw
+          exact hm ((hcs c).2 hw)
+    · intro hnr
+      have hm : c ∉ comps := by
+        intro hm
+        have hl := (hcs c).1 hm
+        exact hnr ⟨"", t, K "" c (mem_akeys_of_alookup_eq_some hl), hl, Int.le_refl _⟩
+      simp [hm]
+  refine tick_eqs_of hS hst ctx sctx hL ?_ ?_ (fun L' h => σ₀.delWake_sched_ne comps h) ht
+  · exact
+      { hroots := hroots
+        ext_root := fun h => absurd rfl h
+        obs_eq := by simp [SimSt.delWake]
+        fresh_obs := by simp
+        fresh_dev := fun _ _ => ⟨rfl, rfl⟩
+        fresh_sched := fun s hb => σ₀.delWake_sched_ne comps (hbelow_ne s hb)
+        in_nodup := by simp
+        in_ok := by
+          intro p v
+          constructor
+          · intro h; simp at h
+          · rintro ⟨a₀, p₀, hr, _⟩
+            rw [hnone p] at hr; cases hr
+        in_dec := by
+          intro p a₀ p₀ hr
+          rw [hnone p] at hr; cases hr
+        d0_out := fun _ h => h.elim }
+  · exact
+      { hroots := hroots
+        fresh_obs := by simp
+        fresh_count := fun _ _ => rfl
+        fresh_sched := fun s hb => σ₀.delWake_sched_ne comps (hbelow_ne s hb)
+        own_wake := hown_wake
+        own_unique := by
+          rw [SimSt.delWake_sched_master]
+          exact delWakeups_unique _ (U "") _
+        own_keys := by
+          intro c hk
+          have hl := alookup_ne_none_iff.2 hk
+          rw [SimSt.delWake_sched_master, delWakeups_lookup _ (U "")] at hl
+          split at hl
+          · exact absurd rfl hl
+          · exact K "" c (alookup_ne_none_iff.1 hl) }
 
 end Tickit
